@@ -1,9 +1,95 @@
 /-
-C18 — the string-level splitting of typed function tests (`partition(') as ')`, `split(', ')`) against the AST.
+C18 — the string-level splitting of typed function tests (`helpers.split_function_test`) against the AST.
 -/
 import EPV.Lemmas.SeqType
 set_option linter.unusedSimpArgs false
 namespace EPV.SeqType
+
+/-! ### the depth-aware scan -/
+
+theorem splitScan_atom (d : Nat) (s : String) (r cur : List Tok) :
+    splitScan d (.atom s :: r) cur = splitScan d r (cur ++ [.atom s]) := by cases d <;> rfl
+theorem splitScan_opn (d : Nat) (s : String) (r cur : List Tok) :
+    splitScan d (.opn s :: r) cur = splitScan (d + 1) r (cur ++ [.opn s]) := by cases d <;> rfl
+theorem splitScan_cls (d : Nat) (s : String) (r cur : List Tok) :
+    splitScan (d + 1) (.cls s :: r) cur = splitScan d r (cur ++ [.cls s]) := rfl
+theorem splitScan_comma_succ (d : Nat) (r cur : List Tok) :
+    splitScan (d + 1) (.comma :: r) cur = splitScan (d + 1) r (cur ++ [.comma]) := rfl
+theorem splitScan_closeAs_succ (d : Nat) (r cur : List Tok) :
+    splitScan (d + 1) (.closeAs :: r) cur = splitScan d r (cur ++ [.closeAs]) := rfl
+theorem splitScan_comma_zero (r cur : List Tok) :
+    splitScan 0 (.comma :: r) cur = (cur :: (splitScan 0 r []).1, (splitScan 0 r []).2) := rfl
+theorem splitScan_closeAs_zero (r cur : List Tok) :
+    splitScan 0 (.closeAs :: r) cur = (if cur.isEmpty then [] else [cur], r) := rfl
+
+variable (nm ln : Nat → String)
+
+mutual
+/-- the text of a type is balanced: at every depth the scan runs over it without splitting -/
+theorem scan_render : ∀ (t : Ty) (d : Nat) (rest cur : List Tok),
+    splitScan d (t.render nm ln ++ rest) cur = splitScan d rest (cur ++ t.render nm ln)
+  | .empty, d, rest, cur => by simp [Ty.render, splitScan_atom]
+  | .leaf l o, d, rest, cur => by
+    cases l <;> simp [Ty.render, splitScan_atom, splitScan_opn, splitScan_comma_succ, splitScan_cls]
+  | .func a r, d, rest, cur => by
+    simp only [Ty.render, List.cons_append, List.append_assoc, splitScan_opn]
+    rw [scan_renderArgs a d, splitScan_closeAs_succ, scan_render r d]
+    simp [List.append_assoc]
+  | .map k v o, d, rest, cur => by
+    simp only [Ty.render, List.cons_append, List.append_assoc, splitScan_opn, splitScan_comma_succ]
+    rw [scan_render v (d + 1)]
+    simp [splitScan_cls, List.append_assoc]
+  | .array m o, d, rest, cur => by
+    simp only [Ty.render, List.cons_append, List.append_assoc, splitScan_opn]
+    rw [scan_render m (d + 1)]
+    simp [splitScan_cls, List.append_assoc]
+/-- inside a parenthesis the `', '` between parameters does not split either -/
+theorem scan_renderArgs : ∀ (a : Tys) (d : Nat) (rest cur : List Tok),
+    splitScan (d + 1) (a.renderArgs nm ln ++ rest) cur = splitScan (d + 1) rest (cur ++ a.renderArgs nm ln)
+  | .nil, d, rest, cur => by simp [Tys.renderArgs]
+  | .cons x .nil, d, rest, cur => by
+    simp only [Tys.renderArgs]; exact scan_render x (d + 1) rest cur
+  | .cons x (.cons y ys), d, rest, cur => by
+    have ih := scan_renderArgs (.cons y ys) d rest
+    simp only [Tys.renderArgs, List.append_assoc, List.cons_append] at ih ⊢
+    rw [scan_render x (d + 1), splitScan_comma_succ, ih]
+    simp [List.append_assoc]
+end
+
+theorem render_ne_nil : ∀ t : Ty, t.render nm ln ≠ []
+  | .empty => by simp [Ty.render]
+  | .leaf l o => by cases l <;> simp [Ty.render]
+  | .func _ _ => by simp [Ty.render]
+  | .map _ _ _ => by simp [Ty.render]
+  | .array _ _ => by simp [Ty.render]
+
+/-- the parameter list of a function test, scanned at depth 0, comes apart at the `', '` between the parameters -/
+theorem scan_args (R : List Tok) : ∀ a : Tys,
+    splitScan 0 (a.renderArgs nm ln ++ .closeAs :: R) [] = (a.argTexts nm ln, R)
+  | .nil => by simp [Tys.renderArgs, Tys.argTexts, splitScan_closeAs_zero]
+  | .cons x .nil => by
+    simp only [Tys.renderArgs, Tys.argTexts]
+    rw [scan_render, splitScan_closeAs_zero]
+    have := render_ne_nil nm ln x
+    simp [this]
+  | .cons x (.cons y ys) => by
+    have ih := scan_args R (.cons y ys)
+    simp only [Tys.renderArgs, Tys.argTexts, List.append_assoc, List.cons_append] at ih ⊢
+    rw [scan_render, splitScan_comma_zero, ih]
+    simp
+
+/-- **`split_function_test` agrees with the AST for every typed function test**: the parameter texts are the texts
+of the parameters (none for `function() as r`), the last piece is the text of the return type. -/
+theorem pySplit_eq (a : Tys) (r : Ty) :
+    pySplit ((Ty.func a r).render nm ln) = (a.argTexts nm ln, r.render nm ln) := by
+  simp only [pySplit, Ty.render, List.tail_cons]
+  exact scan_args nm ln _ a
+
+theorem argTexts_length : ∀ a : Tys, (a.argTexts nm ln).length = a.toList.length
+  | .nil => rfl
+  | .cons x xs => by simp [Tys.argTexts, Tys.toList, argTexts_length xs]
+
+/-! ### the splitting before `fix-c18-6` (`partition(') as ')`, `split(', ')`): agrees exactly on simple parameters -/
 
 def noSep (l : List Tok) : Bool := l.all (fun t => !t.isSep)
 def noCloseAs (l : List Tok) : Bool := l.all (fun t => t != .closeAs)
@@ -14,8 +100,6 @@ theorem noCloseAs_append (a b : List Tok) : noCloseAs (a ++ b) = (noCloseAs a &&
 theorem noCloseAs_of_noSep (l : List Tok) (h : noSep l = true) : noCloseAs l = true := by
   simp only [noSep, noCloseAs, List.all_eq_true] at h ⊢
   intro t ht; have := h t ht; cases t <;> simp_all [Tok.isSep]
-
-variable (nm ln : Nat → String)
 
 /-- a type is `simple` exactly when its text contains neither `', '` nor `') as '` -/
 theorem simple_iff_noSep : ∀ t : Ty, t.simple = true ↔ noSep (t.render nm ln) = true
@@ -40,13 +124,15 @@ theorem partitionCloseAs_append (xs ys : List Tok) (h : noCloseAs xs = true) :
     have ih := ih (by simpa [noCloseAs] using h.2)
     cases x with
     | closeAs => exact absurd rfl h.1
-    | piece s => simp [partitionCloseAs, ih]
+    | atom s => simp [partitionCloseAs, ih]
+    | opn s => simp [partitionCloseAs, ih]
+    | cls s => simp [partitionCloseAs, ih]
     | comma => simp [partitionCloseAs, ih]
 
 theorem partitionCloseAs_fst_noCloseAs : ∀ l : List Tok, noCloseAs (partitionCloseAs l).1 = true
   | [] => rfl
   | .closeAs :: r => rfl
-  | .piece s :: r => by
+  | .atom s :: r | .opn s :: r | .cls s :: r => by
     have ih := partitionCloseAs_fst_noCloseAs r
     simp only [partitionCloseAs, noCloseAs, List.all_cons] at ih ⊢
     simp [ih]
@@ -58,7 +144,7 @@ theorem partitionCloseAs_fst_noCloseAs : ∀ l : List Tok, noCloseAs (partitionC
 theorem splitComma_ne_nil : ∀ l : List Tok, splitComma l ≠ []
   | [] => by simp [splitComma]
   | .comma :: r => by simp [splitComma]
-  | .piece s :: r => by
+  | .atom s :: r | .opn s :: r | .cls s :: r => by
     simp only [splitComma]; split <;> simp
   | .closeAs :: r => by
     simp only [splitComma]; split <;> simp
@@ -89,7 +175,7 @@ theorem splitComma_pieces_noSep : ∀ l : List Tok, noCloseAs l = true → ∀ p
     · rfl
     · exact splitComma_pieces_noSep r (by simpa [noCloseAs] using h) p hp
   | .closeAs :: r, h, _, _ => by simp [noCloseAs] at h
-  | .piece s :: r, h, p, hp => by
+  | .atom s :: r, h, p, hp | .opn s :: r, h, p, hp | .cls s :: r, h, p, hp => by
     have ih := splitComma_pieces_noSep r (by simpa [noCloseAs] using h)
     simp only [splitComma] at hp
     split at hp
@@ -103,18 +189,18 @@ theorem splitComma_pieces_noSep : ∀ l : List Tok, noCloseAs l = true → ∀ p
 
 /-! ### the arguments of a typed function test -/
 
-theorem renderArgs_split : ∀ a : Tys, a.allSimple = true →
+theorem renderArgs_split : ∀ a : Tys, a ≠ .nil → a.allSimple = true →
     splitComma (a.renderArgs nm ln) = a.argTexts nm ln ∧ noCloseAs (a.renderArgs nm ln) = true
-  | .nil, _ => ⟨rfl, rfl⟩
-  | .cons x .nil, h => by
+  | .nil, h, _ => absurd rfl h
+  | .cons x .nil, _, h => by
     simp only [Tys.allSimple, Bool.and_eq_true] at h
     have hx := (simple_iff_noSep nm ln x).1 h.1
     simp only [Tys.renderArgs, Tys.argTexts]
     exact ⟨splitComma_noSep _ hx, noCloseAs_of_noSep _ hx⟩
-  | .cons x (.cons y ys), h => by
+  | .cons x (.cons y ys), _, h => by
     simp only [Tys.allSimple, Bool.and_eq_true] at h
     have hx := (simple_iff_noSep nm ln x).1 h.1
-    have ih := renderArgs_split (.cons y ys) (by simp [Tys.allSimple, h.2])
+    have ih := renderArgs_split (.cons y ys) (by simp) (by simp [Tys.allSimple, h.2])
     simp only [Tys.renderArgs, Tys.argTexts]
     refine ⟨?_, ?_⟩
     · rw [splitComma_append_comma _ _ hx]
@@ -146,8 +232,8 @@ theorem argTexts_noSep_simple : ∀ a : Tys, a ≠ .nil → (∀ p ∈ a.argText
 arguments and the text of the return type.  `←`: whenever the argument pieces come out right, every argument
 is `simple` — so for every typed function test with a typed function test or a typed map test among its
 arguments (at any depth) the code compares other pieces than the AST says (the region `¬ Ty.flat`). -/
-theorem pySplit_agrees_iff (a : Tys) (r : Ty) (ha : a ≠ .nil) :
-    (pySplit ((Ty.func a r).render nm ln)).1 = a.argTexts nm ln ↔ a.allSimple = true := by
+theorem pySplitOld_agrees_iff (a : Tys) (r : Ty) (ha : a ≠ .nil) :
+    (pySplitOld ((Ty.func a r).render nm ln)).1 = a.argTexts nm ln ↔ a.allSimple = true := by
   constructor
   · intro h
     apply argTexts_noSep_simple nm ln a ha
@@ -155,15 +241,9 @@ theorem pySplit_agrees_iff (a : Tys) (r : Ty) (ha : a ≠ .nil) :
     rw [← h] at hp
     exact splitComma_pieces_noSep _ (partitionCloseAs_fst_noCloseAs _) p hp
   · intro h
-    have hs := renderArgs_split nm ln a h
-    simp only [pySplit, Ty.render, List.tail_cons]
+    have hs := renderArgs_split nm ln a ha h
+    simp only [pySplitOld, Ty.render, List.tail_cons]
     rw [partitionCloseAs_append _ _ hs.2]
     exact hs.1
-
-theorem pySplit_flat (a : Tys) (r : Ty) (h : a.allSimple = true) :
-    pySplit ((Ty.func a r).render nm ln) = (a.argTexts nm ln, r.render nm ln) := by
-  have hs := renderArgs_split nm ln a h
-  simp only [pySplit, Ty.render, List.tail_cons]
-  rw [partitionCloseAs_append _ _ hs.2, hs.1]
 
 end EPV.SeqType
